@@ -25,14 +25,14 @@ Proof. reflexivity. Qed.
 (* ---------------------------------------------------------------- values *)
 Lemma str_nonempty_sv : forall v, str_nonempty (sv v) = str_nonempty v.
 Proof.
-  fix IH 1. intros [| | | | |r ps|r x|cls p e attrs|l]; simpl; try reflexivity.
+  fix IH 1. intros [| | | | |r ps|r x|cls p e attrs|nm p cl|l]; simpl; try reflexivity.
   - induction ps as [|x ps IHp]; simpl; [reflexivity|]. rewrite IH, IHp. reflexivity.
   - apply IH.
 Qed.
 
 Lemma val_truthy_sv : forall v, val_truthy (sv v) = val_truthy v.
 Proof.
-  fix IH 1. intros [| | | | |r ps|r x|cls p e attrs|l]; simpl; try reflexivity.
+  fix IH 1. intros [| | | | |r ps|r x|cls p e attrs|nm p cl|l]; simpl; try reflexivity.
   - induction ps as [|x ps IHp]; simpl; [reflexivity|]. rewrite str_nonempty_sv, IHp. reflexivity.
   - apply IH.
   - destruct l; reflexivity.
@@ -57,7 +57,7 @@ Proof. unfold cur_set, shift_cur. simpl. rewrite set_val_shift. reflexivity. Qed
 
 Lemma name_ok_shift l : name_ok (shift_vals l) = name_ok l.
 Proof.
-  unfold name_ok. rewrite get_val_shift. destruct (get_val s_name l) as [[| | | | | | | |[|x vs]]|]; reflexivity.
+  unfold name_ok. rewrite get_val_shift. destruct (get_val s_name l) as [[| | | | | | | | |[|x vs]]|]; reflexivity.
 Qed.
 
 Lemma many_ok_shift meta l : many_ok meta (shift_vals l) = many_ok meta l.
@@ -216,15 +216,19 @@ Qed.
 Lemma is_sep_of_sht asg t : is_sep_of g asg (sht t) = is_sep_of g asg t.
 Proof. unfold is_sep_of. rewrite tree_nid_sht. reflexivity. Qed.
 
-Lemma lst_loop_sht asg at_ is_ref l : Forall Pt l -> Forall (fun t => fits k t = true) l -> forall top,
-  lst_loop pn' (is_sep_of g asg) at_ is_ref (map sht l) (stop top) =
-  map_bres stop (lst_loop pn (is_sep_of g asg) at_ is_ref l top).
+Lemma lst_loop_sht asg at_ refcls l : Forall Pt l -> Forall (fun t => fits k t = true) l -> forall top,
+  lst_loop pn' (is_sep_of g asg) at_ refcls (map sht l) (stop top) =
+  map_bres stop (lst_loop pn (is_sep_of g asg) at_ refcls l top).
 Proof.
   induction l as [|x l IH]; intros HP HF top; [reflexivity|]. inversion HP; subst. inversion HF; subst.
   cbn [map lst_loop]. rewrite is_sep_of_sht. destruct (is_sep_of g asg x); [apply IH; assumption|].
-  rewrite (H1 H3 top). destruct (pn x top) as [[v top1]|e]; [|reflexivity]. simpl.
-  destruct is_ref; [reflexivity|]. destruct top1 as [c1|]; [|reflexivity]. simpl.
-  rewrite get_val_shift. destruct (get_val at_ (c_vals c1)) as [[| | | | | | | |vs]|]; try reflexivity; simpl.
+  rewrite (H1 H3 top). destruct (pn x top) as [[v0 top1]|e]; [|reflexivity]. simpl.
+  rewrite (tpos_sht x H3).
+  set (v := match refcls with Some cl => VRef v0 (tpos x) cl | None => v0 end).
+  replace (match refcls with Some cl => VRef (sv v0) (ph (tpos x)) cl | None => sv v0 end) with (sv v)
+    by (unfold v; destruct refcls; reflexivity).
+  destruct top1 as [c1|]; [|reflexivity]. simpl.
+  rewrite get_val_shift. destruct (get_val at_ (c_vals c1)) as [[| | | | | | | | |vs]|]; try reflexivity; simpl.
   - change (VList [sv v]) with (sv (VList [v])). rewrite cur_set_shift. apply (IH H2 H4 (Some _)).
   - change (VList (map sv vs ++ [sv v])) with (VList (map sv vs ++ map sv [v])). rewrite <- map_app.
     change (VList (map sv (vs ++ [v]))) with (sv (VList (vs ++ [v]))). rewrite cur_set_shift. apply (IH H2 H4 (Some _)).
@@ -281,18 +285,21 @@ Proof.
         destruct kids as [|x rest]; [reflexivity|]. cbn [map].
         inversion IH; subst. inversion Hall; subst.
         change (Some (shift_cur k n c)) with (stop (Some c)). rewrite (H1 H3 (Some c)).
-        destruct (pn x (Some c)) as [[v top1]|e]; [|reflexivity]. simpl.
-        destruct (a_ref ma && negb (a_cont ma))%bool; [reflexivity|].
+        destruct (pn x (Some c)) as [[v0 top1]|e]; [|reflexivity]. simpl.
+        rewrite (tpos_sht x H3).
+        set (v := if (a_ref ma && negb (a_cont ma))%bool then VRef v0 (tpos x) (a_cls ma) else v0).
+        replace (if (a_ref ma && negb (a_cont ma))%bool then VRef (sv v0) (ph (tpos x)) (a_cls ma) else sv v0) with (sv v)
+          by (unfold v; destruct (a_ref ma && negb (a_cont ma))%bool; reflexivity).
         destruct top1 as [c1|]; [|reflexivity]. simpl.
-        destruct av as [| | | | | | | |l]; simpl; try (rewrite cur_set_shift; reflexivity).
+        destruct av as [| | | | | | | | |l]; simpl; try (rewrite cur_set_shift; reflexivity).
         change (VList (map sv l ++ [sv v])) with (VList (map sv l ++ map sv [v])). rewrite <- map_app.
         change (VList (map sv (l ++ [v]))) with (sv (VList (l ++ [v]))). rewrite cur_set_shift. reflexivity.
       * (* ?= *)
         simpl. change (VBool true) with (sv (VBool true)). rewrite cur_set_shift. reflexivity.
       * (* += *= *)
         change (Some (shift_cur k n c)) with (stop (Some c)).
-        rewrite (lst_loop_sht nid at_ (a_ref ma && negb (a_cont ma))%bool kids IH Hall (Some c)).
-        destruct (lst_loop pn (is_sep_of g nid) at_ (a_ref ma && negb (a_cont ma))%bool kids (Some c)); reflexivity.
+        rewrite (lst_loop_sht nid at_ (if (a_ref ma && negb (a_cont ma))%bool then Some (a_cls ma) else None) kids IH Hall (Some c)).
+        destruct (lst_loop pn (is_sep_of g nid) at_ (if (a_ref ma && negb (a_cont ma))%bool then Some (a_cls ma) else None) kids (Some c)); reflexivity.
     + destruct rk.
       * (* common rule *)
         set (t := NT nid kids) in *.
@@ -337,10 +344,11 @@ End Trees.
 (* ---------------------------------------------------------------- apart from positions *)
 Lemma erase_shift k n : forall v, erase_val (shift_val k n v) = erase_val v.
 Proof.
-  fix IH 1. intros [| | | | |r ps|r x|cls p e attrs|l]; simpl; try reflexivity.
+  fix IH 1. intros [| | | | |r ps|r x|cls p e attrs|nm p cl|l]; simpl; try reflexivity.
   - f_equal. induction ps as [|x ps IHp]; simpl; [reflexivity|]. rewrite IH, IHp. reflexivity.
   - f_equal. apply IH.
   - f_equal. induction attrs as [|[a0 x] attrs IHa]; simpl; [reflexivity|]. rewrite IH, IHa. reflexivity.
+  - f_equal. apply IH.
   - f_equal. induction l as [|x l IHl]; simpl; [reflexivity|]. rewrite IH, IHl. reflexivity.
 Qed.
 
